@@ -864,6 +864,57 @@ def check_heap(m, f, res):
             continue
         for e in f.blocks[b].elems:
             st = step(st, e)
+    # the element read with front() is the one pop_heap removes only if the heap is not reorganised in between
+    # (may-analysis: a top read is pending on some path)
+    PEND = {b: None for b in f.blocks}
+    PEND[f.entry] = False
+    work = [f.entry]
+    stale = []
+    REORG = ('H.push_back', 'H.emplace_back', 'H.insert', 'make_heap', 'push_heap', 'sort_heap', 'key.write')
+
+    def pstep(p, nid, record):
+        k = events.get(nid)
+        if k == 'H.front':
+            return True
+        if k == 'pop_heap':
+            return False
+        if p and k in REORG and record:
+            stale.append((nid, k))
+        return p
+    it = 0
+    while work and it < 5000:
+        it += 1
+        b = work.pop()
+        p0 = PEND[b]
+        if p0 is None:
+            continue
+        for e in f.blocks[b].elems:
+            p0 = pstep(p0, e, False)
+        for sx in f.blocks[b].succs:
+            if sx < 0:
+                continue
+            old = PEND[sx]
+            new = p0 if old is None else (old or p0)
+            if new != old:
+                PEND[sx] = new
+                work.append(sx)
+    for b, p0 in PEND.items():
+        if p0 is None:
+            continue
+        for e in f.blocks[b].elems:
+            p0 = pstep(p0, e, True)
+    top = getattr(res, 'top', None)
+    for r_ in [res] + ([top] if top is not None else []):
+        r_.sites += 1
+        if stale and any(k == 'pop_heap' for k in events.values()):
+            nid, k = stale[0]
+            r_.fail(Finding(r_.rule, disp, 'top read / removal', f.nloc(nid),
+                            '`%s` reorganises the heap (%s) after the top was read with front() and before pop_heap removes it: the '
+                            'entry that is removed need not be the vertex that was processed (on a tie another entry can be lifted '
+                            'to the front), so a queued vertex is dropped without having been scanned'
+                            % (f.expr_text(nid)[:50], k)))
+        else:
+            r_.ok(dict(function=disp, check='no heap reorganisation between front() and the pop_heap that removes it'), fn=disp)
     res.sites += 1
     if viol:
         nid, k = viol[0]
@@ -873,6 +924,34 @@ def check_heap(m, f, res):
     else:
         res.ok(dict(function=disp, check='typestate HEAP/DIRTY: front() and pop_heap only on a heap, pop_back right after '
                     'pop_heap, make_heap after every append / key write'), fn=disp)
+
+
+def check_priority_queue(m, f, res):
+    """a std::priority_queue worklist: its ordering must put the smallest key on top (std::priority_queue with the default
+    std::less is a MAX-heap).  Only the one definite deviation is reported; other adaptor forms stay undecided."""
+    u = f.unit
+    for n in f.nodes:
+        if n['k'] != 'DeclStmt':
+            continue
+        for d in n['decls']:
+            ct = u.decl(d).get('ctype', '')
+            if not ct.startswith('std::priority_queue<'):
+                continue
+            res.sites += 1
+            inner = ct[len('std::priority_queue<'):]
+            elem = inner.split(', std::vector<')[0]
+            cmp_ = inner.rsplit(', std::', 1)[-1] if ', std::' in inner else ''
+            keyed = elem.startswith(('std::pair<double', 'std::pair<float', 'std::pair<long double', 'std::tuple<double', 'double'))
+            if cmp_.startswith('less<') and keyed:
+                res.fail(Finding('F-HEAP', f.display(), 'priority_queue ordering', f.nloc(n['i']),
+                                 '`%s` is a std::priority_queue with the default std::less: top() is the entry with the LARGEST '
+                                 'tentative distance, so the search expands the farthest queued vertex first and re-queues vertices '
+                                 'on every later improvement - the number of scans is no longer bounded by the size of the graph '
+                                 '(expected the minimum on top: std::greater, or the vector + heap algorithms with dist[a] > dist[b])'
+                                 % u.decl(d)['name']))
+            else:
+                res.broken('F-HEAP: expected the priority queue of %s to be a vector used with the heap algorithms; the adaptor %s is '
+                           'not decided' % (f.display(), ct[:80]))
 
 
 # ------------------------------------------------------------------------------------------------
@@ -889,6 +968,9 @@ def run_searches(m, which):
                                          '(Dijkstra) bound the number of scans by the size of the graph')
     res_heap = RuleResult('F-HEAP', 'heap algorithms on one range use one comparator ordering by tentative distance with '
                                     'the minimum on top; front()/pop_heap only in state HEAP; pop_back right after pop_heap')
+    res_heap.top = RuleResult('F-HEAP.top', 'the entry removed from the priority queue is the vertex that is scanned: the heap is not '
+                                            'reorganised between front() and the pop_heap / pop_back that removes the top (every queued '
+                                            'vertex is scanned - the premise of the label-correcting theorem)')
     for tn, schema in SEARCHES:
         if schema not in which:
             continue
@@ -901,6 +983,7 @@ def run_searches(m, which):
             check_search(m, f, schema, res_wl, res_bound)
             if schema == 'S-LC':
                 check_heap(m, f, res_heap)
+                check_priority_queue(m, f, res_heap)
     return res_wl, res_bound, res_heap
 
 
